@@ -112,6 +112,14 @@ Section Generic.
         apply (r_zero HR). destruct (fp_eff T o f); try discriminate. reflexivity.
   Qed.
 
+  (* a well-behaved field the holder cannot set is, after any history, as in a new instance *)
+  Theorem clean_field_gen : forall s0, same_all s0 fresh ->
+    forall (h : hist op X) f, wb T f = true -> configurable T f = false -> feq f (run h s0) fresh.
+  Proof.
+    intros s0 Hs0 h f Hwb Hc. eapply feq_trans; [apply invariant; assumption|].
+    apply config_run_fresh; [apply cfg_all_config|exact Hc].
+  Qed.
+
   Theorem no_carry_over_gen : forall s0, same_all s0 fresh ->
     forall (h : hist op X) probe, result (run h s0) probe = result (run (cfg h) fresh) probe.
   Proof.
@@ -297,6 +305,22 @@ Section ParserInst.
   Proof.
     apply (no_carry_over_pooled_gen pfield pop pin pstate presult (ptable no_defects) pfeq pfeq_refl pfeq_sym pfeq_trans
              fresh_p psem0 psem_respects (pfields_complete _) (pops_complete _) ptable_ok pbound_ok OPutGet eq_refl).
+  Qed.
+
+  (* no call — failing, cancelled before or during the parse, too deeply nested — leaves a context or a non-zero
+     depth behind: after ANY history both are as in a new parser *)
+  Theorem depth_ctx_never_left_behind : forall s0, obtainable fresh_p psem0 OPutGet s0 ->
+    forall (h : hist pop pin), p_depth (prun h s0) = 0 /\ p_ctx (prun h s0) = None.
+  Proof.
+    intros s0 H0 h.
+    assert (Hs : Reuse.same_all (ptable no_defects) pfeq s0 fresh_p).
+    { apply (pool_get_is_fresh_gen pfield pop pin pstate presult (ptable no_defects) pfeq pfeq_refl fresh_p psem0 psem_respects
+               (pops_complete _) pbound_ok OPutGet eq_refl s0 H0). }
+    split.
+    - apply (clean_field_gen pfield pop pin pstate presult (ptable no_defects) pfeq pfeq_refl pfeq_sym pfeq_trans
+               fresh_p psem0 psem_respects (pfields_complete _) (pops_complete _) ptable_ok s0 Hs h FDepth); reflexivity.
+    - apply (clean_field_gen pfield pop pin pstate presult (ptable no_defects) pfeq pfeq_refl pfeq_sym pfeq_trans
+               fresh_p psem0 psem_respects (pfields_complete _) (pops_complete _) ptable_ok s0 Hs h FCtx); reflexivity.
   Qed.
 
   Theorem reset_is_fresh : forall o, In o [OReset; ORelease; OPutGet] ->
